@@ -193,6 +193,20 @@ func TestGvcReplay(t *testing.T) {
 	}
 }
 `}},
+	{"v3.(*Compiler).HandleDynamicVar", "envInKey", scenario{pkgRel: "", what: "two calls of one task with different variables: the second gets the value the first call's sh: variable computed from ITS variables",
+		src: gvcHeader + `
+func TestGvcReplay(t *testing.T) {
+	dir := t.TempDir()
+	gvcWrite(t, dir, "Taskfile.yml", "version: '3'\nsilent: true\ntasks:\n  show:\n    vars:\n      SEEN:\n        sh: echo \"seen-$X\"\n    cmds: [\"echo X={{.X}} SEEN={{.SEEN}}\"]\n  both:\n    cmds:\n      - task: show\n        vars: {X: one}\n      - task: show\n        vars: {X: two}\n")
+	var out bytes.Buffer
+	if err := gvcExec(t, dir, &out).Run(context.Background(), &task.Call{Task: "both"}); err != nil {
+		t.Fatalf("run: %v", err)
+	}
+	if !strings.Contains(out.String(), "X=two SEEN=seen-two") {
+		t.Fatalf("GVC-REPLAY-REPRODUCED: the second call (X=two) saw the dynamic variable of the first call: %q", out.String())
+	}
+}
+`}},
 	{"v3.(*Executor).RunTask$1", "precondsOK(call)", scenario{pkgRel: "", what: "--force runs the commands of a task whose precondition fails",
 		src: gvcHeader + `
 func TestGvcReplay(t *testing.T) {
